@@ -431,12 +431,18 @@ func genDialogOp(g *gen, c *Cfg, n int, typ string) Op {
 		// the subscriber's user agent is known to the proxy through this listener only
 		ua = fmt.Sprintf("10.1.%d.%d:%d", 50+li, 1+g.intn(200), g.pick2(5060, 5062, 5064))
 	}
+	callID := "call-" + id + "@" + g.alnum(3, 6)
+	if g.prevCallID != "" && g.chance(12) {
+		// a Call-ID that extends another live call's Call-ID ('-' is an ordinary Call-ID character)
+		callID = g.prevCallID + g.pick("-2", "-", "-b@x")
+	}
+	g.prevCallID = callID
 	fromTag, toTag := g.tagValue(), g.tagValue()
 	if len(g.tagPool) > 0 && g.chance(70) {
 		fromTag, toTag = g.tagPool[g.intn(len(g.tagPool))], g.tagPool[g.intn(len(g.tagPool))]
 	}
 	op := Op{Kind: "dialog", ID: id, Listen: li, DelayUs: int64(g.intn(20000)),
-		S: map[string]string{"type": typ, "callID": "call-" + id + "@" + g.alnum(3, 6), "fromURI": fromURI, "toURI": toURI,
+		S: map[string]string{"type": typ, "callID": callID, "fromURI": fromURI, "toURI": toURI,
 			"fromTag": fromTag, "toTag": toTag, "ruri": svcRURI(g, c), "ua": ua, "ua2": ua2},
 		I: map[string]int{"prov": g.intn(3), "style": g.intn(1000), "early": g.intn(4)}}
 	if g.chance(30) {
